@@ -205,6 +205,21 @@ func runRespHistory(t testing.TB, ops []string) string {
 				res += "!still-registered"
 			}
 			out = append(out, res)
+		case op == "sl": // a request that gets no reply, then a SENDERLESS message whose handler calls Respond: the request must time out
+			silent := e.SpawnFunc(func(c *Context) {
+				if u, ok := c.Message().(vUser); ok && u.k == -8 {
+					c.Respond(vUser{77}) // no sender: Respond has nobody to answer
+				}
+			}, "verifsilent", WithID(strconv.Itoa(len(out))))
+			r := e.Request(silent, vUser{-7}, 40*time.Millisecond)
+			e.Send(silent, vUser{-8})
+			v, err := r.Result()
+			res := "timeout"
+			if err == nil {
+				res = fmt.Sprintf("value(%v)", v)
+			}
+			<-e.Poison(silent).Done()
+			out = append(out, res)
 		case strings.HasPrefix(op, "ed"): // ed<n>: n rounds of a reply that races the deadline, each followed by a request with a generous timeout
 			n, _ := strconv.Atoi(op[2:])
 			func() {
@@ -292,6 +307,7 @@ func TestVerifResp(t *testing.T) {
 	}
 	emit("ids", []string{"ids" + strconv.Itoa(vgen.Scale(320000, 1600000))})
 	emit("edge", []string{"ed" + strconv.Itoa(vgen.Scale(12, 60)), "qi3", "rq", "rp0v4", "rs0"})
+	emit("silent", []string{"sl", "qi4", "sl"})
 	emit("conc", []string{"cc" + strconv.Itoa(vgen.Scale(16, 64)) + "x" + strconv.Itoa(vgen.Scale(400, 2000)), "qi5", "cc2x50", "qi9"})
 	r := vgen.NewRng(vgen.Seed())
 	n := vgen.Scale(150, 2500)
